@@ -100,6 +100,22 @@ Theorem C12_interleaving_disciplined : forall dh (sch : list (nat * op)) (inits 
 Proof. exact disciplined_interleaving. Qed.
 Print Assumptions C12_interleaving_disciplined.
 
+(** (5) the repair evaluated on the model.  [step_fixed] is [step] with the injection done as
+    context.update(copy.deepcopy(in)) (likewise config.vars in pypyr.steps.configvars).  For that
+    machine the FULL statements hold, for every operation list, with no discipline hypothesis:
+    after the repair these replace (1)-(4) with [step := step_fixed]. *)
+Theorem C12_no_def_mutation_after_repair : forall dh r,
+  closed dh = true -> fst (run1_with step_fixed dh r) = dh.
+Proof. exact fixed_run_unchanged. Qed.
+Print Assumptions C12_no_def_mutation_after_repair.
+
+Theorem C12_interleaving_after_repair : forall dh (sch : list (nat * op)) (inits : nat -> list (string * tree)),
+  let ps := fun t => init_ctx (inits t) empty_priv in
+  fst (sched_run step_fixed dh ps sch) = dh /\
+  forall t, snd (sched_run step_fixed dh ps sch) t = snd (exec step_fixed dh (ps t) (proj t sch)).
+Proof. exact fixed_interleaving. Qed.
+Print Assumptions C12_interleaving_after_repair.
+
 (* ---------------------------------------------------------------- non-vacuity *)
 (* `in: {k: [1, 2]}`, set c = '{k}' (a rebuilt copy), append 3 to c, keep a by-reference
    alias r of the definition object without touching it *)
@@ -151,3 +167,12 @@ Proof.
   - intro t. destruct t as [|[|t]]; reflexivity.
   - vm_compute. split; reflexivity.
 Qed.
+
+(* the witness of (1) is harmless on the repaired machine, and still does its work *)
+Example C12_after_repair_nonvacuous :
+  let dh := fst (load witness_defs []) in
+  fst (run1_with step_fixed dh witness_run) = dh /\
+  o_final (snd (run1_with step_fixed dh witness_run)) = [("k", TList [TInt 1; TInt 2; TInt 3])] /\
+  snd (run1_with step_fixed (fst (run1_with step_fixed dh witness_run)) witness_run)
+    = snd (run1_with step_fixed dh witness_run).
+Proof. vm_compute. repeat split. Qed.
